@@ -24,9 +24,35 @@
 
 """
 
-from Crypto.Hash import SHA256
 from Crypto.PublicKey import RSA
 from Crypto.Signature import pkcs1_15
+
+
+class _PrehashedSHA1(object):  # pylint: disable=too-few-public-methods
+    """A stand-in for a pycryptodome SHA-1 hash object whose digest is already known.
+
+    Parameters
+    ----------
+    digest : bytes, bytearray
+        The digest (i.e., the token that will be signed)
+
+    """
+    oid = '1.3.14.3.2.26'
+    digest_size = 20
+
+    def __init__(self, digest):
+        self._digest = bytes(digest)
+
+    def digest(self):
+        """Return the digest.
+
+        Returns
+        -------
+        bytes
+            The digest
+
+        """
+        return self._digest
 
 
 class PycryptodomeAuthSigner(object):
@@ -69,8 +95,8 @@ class PycryptodomeAuthSigner(object):
             The signed ``data``
 
         """
-        h = SHA256.new(data)
-        return pkcs1_15.new(self.rsa_key).sign(h)
+        # ``data`` is the 20-byte token from the device, which adbd treats as an already computed SHA-1 digest
+        return pkcs1_15.new(self.rsa_key).sign(_PrehashedSHA1(data))
 
     def GetPublicKey(self):
         """Returns the public key in PEM format without headers or newlines.
